@@ -186,3 +186,84 @@ def recording_forecaster_class():
     globals()["_RecordingForecasterImpl"] = RecordingForecaster
     _FC_CLS = RecordingForecaster
     return _FC_CLS
+
+
+# ----------------------------------------------------------------------------- C19 doubles
+class InjectedFault(RuntimeError):
+    """Raised by a counting estimator at the configured call number."""
+
+
+CALLS = {"n": 0, "fits": 0, "predicts": 0, "fail_at": None, "log": []}
+
+
+def reset_calls(fail_at=None):
+    CALLS.update({"n": 0, "fits": 0, "predicts": 0, "fail_at": fail_at, "log": []})
+
+
+def _tick(kind, tag):
+    CALLS["n"] += 1
+    CALLS["fits" if kind == "fit" else "predicts"] += 1
+    CALLS["log"].append((kind, tag))
+    if CALLS["fail_at"] is not None and CALLS["n"] == CALLS["fail_at"]:
+        raise InjectedFault("injected fault at call %d (%s of %s)" % (CALLS["n"], kind, tag))
+
+
+def _level(X):
+    """Mean level of each instance of a nested frame / 3-d array (first column)."""
+    import pandas as pd
+
+    if isinstance(X, pd.DataFrame):
+        return np.array([float(np.mean(np.asarray(X.iloc[i, 0], dtype=float))) for i in range(len(X))])
+    X = np.asarray(X, dtype=float)
+    return X.reshape(X.shape[0], -1).mean(axis=1)
+
+
+from sklearn.base import ClassifierMixin  # noqa: E402
+
+
+class CountingClassifier(ClassifierMixin, SkBase):
+    """Deterministic nearest-class-mean classifier on the series level; counts fit/predict
+    calls globally and raises InjectedFault at the configured call."""
+
+    def __init__(self, tag="c", shift=0.0):
+        self.tag = tag
+        self.shift = shift
+
+    def fit(self, X, y):
+        _tick("fit", self.tag)
+        lv = _level(X)
+        y = np.asarray(y)
+        self.classes_ = np.array(sorted(set(y.tolist())))
+        self.means_ = np.array([lv[y == c].mean() for c in self.classes_])
+        # deliberately stateful across fits (like warm_start): only a fresh clone per fold
+        # predicts as the reference does
+        self.n_fits_ = getattr(self, "n_fits_", 0) + 1
+        return self
+
+    def predict(self, X):
+        _tick("predict", self.tag)
+        lv = _level(X) + self.shift
+        out = self.classes_[np.argmin(np.abs(lv[:, None] - self.means_[None, :]), axis=1)]
+        if self.n_fits_ > 1:
+            out = self.classes_[::-1][np.argmin(np.abs(lv[:, None] - self.means_[None, :]), axis=1)]
+        return out
+
+
+class CountingRegressor(RegressorMixin, SkBase):
+    def __init__(self, tag="r", shift=0.0):
+        self.tag = tag
+        self.shift = shift
+
+    def fit(self, X, y):
+        _tick("fit", self.tag)
+        lv = _level(X)
+        y = np.asarray(y, dtype=float)
+        A = np.column_stack([np.ones(len(lv)), lv])
+        self.coef_, *_ = np.linalg.lstsq(A, y, rcond=None)
+        self.n_fits_ = getattr(self, "n_fits_", 0) + 1
+        return self
+
+    def predict(self, X):
+        _tick("predict", self.tag)
+        lv = _level(X)
+        return np.round(self.coef_[0] + self.coef_[1] * lv + self.shift + 1000.0 * (self.n_fits_ - 1), 6)
